@@ -183,6 +183,7 @@ pub fn run_prog(
                 return Err(fail_kind(kind));
             }
             Op::Emit(e) => sink.consume(format!("{name}:{e}")),
+            Op::BadParentCut => {}
             Op::PutK(k, v) => {
                 let key = Keys::from_iter(crate::dag::key_alpha()[k as usize].iter().map(|c| c.clone().into_boxed_slice()));
                 facts.insert("kk".into(), key, vec![v].into()).map_err(|_| PolicyError::Write)?;
